@@ -57,7 +57,16 @@ def _mk_frame(spec, ao):
 def _build(case):
     subs = [_mk_frame(s, ao) for s, ao in zip(case["subframes"], case["axes_orders"])]
     n = sum(len(ao) for ao in case["axes_orders"])
-    out = subs[0] if case.get("lone") else cf.CompositeFrame(subs, name="world")
+    if case.get("lone"):
+        out = subs[0]
+    else:
+        # the composite is built from a list that the caller goes on using (emptied and refilled for another frame afterwards): the frame
+        # keeps its own sub-frames
+        lst = list(subs)
+        out = cf.CompositeFrame(lst, name="world")
+        if case.get("reuse_list", True):
+            lst.clear()
+            lst.append(cf.SpectralFrame(unit=u.nm, axes_order=(0,), name="someone_elses_spectral_axis"))
     t = None
     for a, b in case["ab"]:
         s = models.Scale(a) | models.Shift(b)
